@@ -224,12 +224,16 @@ class Gen:
         return ps
 
     # ---- type definitions
-    def gen_enum(self):
-        n = self.ri(1, 8)
-        style = self.pick(["implicit", "explicit", "negative", "gaps", "extreme", "zero_contig", "one_contig", "mixed"])
+    def gen_enum(self, style=None, n=None):
+        n = n or self.ri(1, 8)
+        style = style or self.pick(["implicit", "explicit", "negative", "gaps", "extreme", "zero_contig", "one_contig", "mixed", "perm", "perm"])
+        perm = list(range(n))
+        if style == "perm":
+            while n > 1 and perm == list(range(n)):
+                self.r.shuffle(perm)
         variants, used, cur = [], set(), -1
         for i in range(n):
-            vname = "V%s" % "ABCDEFGH"[i]
+            vname = "V%s" % "abcdefgh"[i]
             e = None
             if style == "explicit":
                 e = self.ri(-50, 50)
@@ -241,6 +245,8 @@ class Gen:
                 e = self.pick([-2147483648, 2147483647 - n, 0, -1, 65536, 2147483647]) if self.chance(0.5) else None
             elif style == "one_contig":
                 e = 1 if i == 0 else None
+            elif style == "perm":
+                e = perm[i]
             elif style == "mixed":
                 e = self.ri(-300, 300) if self.chance(0.4) else None
             val = e if e is not None else cur + 1
